@@ -3,6 +3,7 @@ package fs
 import (
 	"archive/tar"
 	"io"
+	"io/fs"
 	"os"
 	"strings"
 	"time"
@@ -193,6 +194,23 @@ func Harness_C09_read_with_other_key_fails() {
 	n2, rerr2 := r2.Read(buf2)
 	vm.Assert("C09.other_key_read_fails", rerr2 != nil && n2 <= 0)
 	r2.Close()
+	vm.ForeignKey = false
+	// restoring through the archive interface: a tree of directories only, with the right key and with another one
+	vm.Assert("C09.mkdir_ok", v.FS.MkdirAll("/secretdir/nested", 0o750) == nil)
+	made := 0
+	restore := func() error {
+		return v.Env.ReadOps.Restore(
+			func(path string, mode fs.FileMode) (io.WriteCloser, error) { return &c03Sink{}, nil },
+			func(path string, mode fs.FileMode) error { made++; return nil },
+			"/secretdir", "/out", true,
+		)
+	}
+	vm.Assert("C09.right_key_restores_directories", restore() == nil && made == 2)
+	made = 0
+	vm.ForeignKey = true
+	oerr2 := restore()
+	vm.ForeignKey = false
+	vm.Assert("C09.other_key_restores_nothing", oerr2 != nil && made == 0)
 }
 
 // Harness_C08_initialize_gate: with signatures on, an index rebuild in Initialize never indexes a record
